@@ -121,6 +121,11 @@ func (m *Model) PullPositions(ctx context.Context, ops ...resource.ReadOption) <
 				all[change.Id] = change.NewValue.(*traits.OpenClosePosition)
 			}
 
+			if !change.SeedValue {
+				// an empty collection produces no seed values, so nothing marks the last one:
+				// the first update ends the seeding phase too
+				seenAll = true
+			}
 			shouldSend := seenAll || (change.LastSeedValue && !readRequest.UpdatesOnly)
 			if change.LastSeedValue {
 				seenAll = true
